@@ -5,7 +5,7 @@ import ApdVerif.Lemmas.C10Lemmas
 # C10 — integer division and remainder satisfy the division identity
 -/
 namespace Apd.Props
-open Apd Apd.Oracle
+open Apd Apd.Oracle Apd.C10L
 
 /-- coefficients of x and y at their common (smaller) exponent -/
 def aligned (x y : Dec) : Nat × Nat × Int :=
